@@ -734,12 +734,31 @@ fn attach_pre_call(w: &mut Workload, pseed: u64, i: u64) {
     pw.env_workers = w.env_workers.clone();
     pw.hashq_cap = 16;
     let par = r.chance(0.6);
-    let last_single = par && r.chance(0.4);
+    if pw.faults.is_empty() && r.chance(0.3) {
+        // the earlier call ends with an error (its source fails or delivers an out-of-range sample)
+        let nreads = pw.plan_reads().len();
+        if nreads > 0 {
+            let k = r.below(nreads);
+            let f = if r.chance(0.5) {
+                workload::gen_out_of_range(&mut r, &pw, k)
+            } else {
+                Fault::ReadError {
+                    k,
+                    after_fill: false,
+                    reason: r.below(10) as u8,
+                }
+            };
+            pw.faults.push(f);
+        }
+    }
+    // the observed call is single-thread after a multi-thread one, or (less often) after a single-thread one
+    let last_single = if par { r.chance(0.4) } else { r.chance(0.25) };
     w.pre = Some(Box::new(workload::PreCall {
         w: pw,
         par,
         last_single,
         concurrent: false,
+        failed_write: r.chance(0.3).then(|| r.below(1000) as u32),
         derived: tag,
     }));
 }
@@ -782,6 +801,7 @@ fn attach_concurrent_call(w: &mut Workload, pseed: u64, i: u64) {
         par: true,
         last_single: false,
         concurrent: true,
+        failed_write: None,
         derived: tag,
     }));
 }
@@ -895,7 +915,9 @@ fn cmd_run(args: &[String]) {
     let mut last = from;
     for i in from..count {
         let mut w = gen(plan.purpose, tier, pseed, i);
-        if prop == "C10P" {
+        // "repeating a run gives identical bytes": a tenth of the C05 and C03 workloads follow an earlier call (and,
+        // for some, a failed write) on the same calling thread
+        if prop == "C10P" || (matches!(prop.as_str(), "C05" | "C03") && i % 10 == 3 && w.nfull < 2_000) {
             attach_pre_call(&mut w, pseed, i);
         }
         if matches!(prop.as_str(), "C05" | "C06" | "C06N" | "C03") && w.nfull < 20_000 {
